@@ -444,6 +444,11 @@ package consensus
 //@   invariant loop#3 @missed-sum types.u128(missedSum) == sumSCO(fc.MissedProofOutputs, $n) && types.u128(validSum) == sumSCO(fc.ValidProofOutputs, len(fc.ValidProofOutputs))
 //@   invariant loop#3 @no-overflow $n < len(fc.MissedProofOutputs) ==> sumSCO(fc.MissedProofOutputs, $n + 1) < types.M128
 //@   invariant loop#6 @j-lower j >= $n5 + 1
+//@   invariant loop#5 @proofs-distinct 0 <= k && k < $n && k < l && l < len(txn.StorageProofs) ==> txn.StorageProofs[k].ParentID != txn.StorageProofs[l].ParentID
+//@   invariant loop#6 @proofs-distinct-outer 0 <= k && k < $n5 && k < l && l < len(txn.StorageProofs) ==> txn.StorageProofs[k].ParentID != txn.StorageProofs[l].ParentID
+//@   invariant loop#6 @proofs-distinct-inner $n5 < l && l < j ==> txn.StorageProofs[$n5].ParentID != txn.StorageProofs[l].ParentID
+//@   invariant loop#7 @proofs-distinct-done 0 <= k && k < l && l < len(txn.StorageProofs) ==> txn.StorageProofs[k].ParentID != txn.StorageProofs[l].ParentID
+//@   invariant loop#7 @proofs-unresolved 0 <= k && k < $n ==> !has(ms.spends, txn.StorageProofs[k].ParentID)
 //@   invariant loop#4 @contracts-done 0 <= k && k < len(txn.FileContracts) ==> txn.FileContracts[k].WindowStart >= cheight(ms.base) && txn.FileContracts[k].WindowEnd > txn.FileContracts[k].WindowStart && sumSCO(txn.FileContracts[k].ValidProofOutputs, len(txn.FileContracts[k].ValidProofOutputs)) == sumSCO(txn.FileContracts[k].MissedProofOutputs, len(txn.FileContracts[k].MissedProofOutputs)) && types.u128(txn.FileContracts[k].Payout) == sumSCO(txn.FileContracts[k].ValidProofOutputs, len(txn.FileContracts[k].ValidProofOutputs)) + types.u128(ms.base.FileContractTax(txn.FileContracts[k]))
 //@   invariant loop#4 @revisions 0 <= k && k < $n ==> txn.FileContractRevisions[k].UnlockConditions.Timelock <= cheight(ms.base) && txn.FileContractRevisions[k].FileContract.WindowStart >= cheight(ms.base) && txn.FileContractRevisions[k].FileContract.WindowEnd > txn.FileContractRevisions[k].FileContract.WindowStart && !has(ms.spends, txn.FileContractRevisions[k].ParentID) && ms.fileContractElement(ts, txn.FileContractRevisions[k].ParentID).1 && ms.fileContractElement(ts, txn.FileContractRevisions[k].ParentID).0.FileContract.WindowStart >= cheight(ms.base) && txn.FileContractRevisions[k].FileContract.RevisionNumber > ms.fileContractElement(ts, txn.FileContractRevisions[k].ParentID).0.FileContract.RevisionNumber && txn.FileContractRevisions[k].UnlockConditions.UnlockHash() == ms.fileContractElement(ts, txn.FileContractRevisions[k].ParentID).0.FileContract.UnlockHash && sumSCO(txn.FileContractRevisions[k].FileContract.ValidProofOutputs, len(txn.FileContractRevisions[k].FileContract.ValidProofOutputs)) == sumSCO(ms.fileContractElement(ts, txn.FileContractRevisions[k].ParentID).0.FileContract.ValidProofOutputs, len(ms.fileContractElement(ts, txn.FileContractRevisions[k].ParentID).0.FileContract.ValidProofOutputs)) && sumSCO(txn.FileContractRevisions[k].FileContract.MissedProofOutputs, len(txn.FileContractRevisions[k].FileContract.MissedProofOutputs)) == sumSCO(ms.fileContractElement(ts, txn.FileContractRevisions[k].ParentID).0.FileContract.MissedProofOutputs, len(ms.fileContractElement(ts, txn.FileContractRevisions[k].ParentID).0.FileContract.MissedProofOutputs))
 //@   ensures @F1-window result == nil && 0 <= k && k < len(txn.FileContracts) ==> fc.WindowStart >= cheight(ms.base) && fc.WindowEnd > fc.WindowStart
@@ -454,6 +459,8 @@ package consensus
 //@   ensures @F6-revision-number result == nil && 0 <= k && k < len(txn.FileContractRevisions) ==> rev.FileContract.RevisionNumber > par.0.FileContract.RevisionNumber
 //@   ensures @K1-revision-unlock-hash result == nil && 0 <= k && k < len(txn.FileContractRevisions) ==> rev.UnlockConditions.UnlockHash() == par.0.FileContract.UnlockHash
 //@   ensures @B5-revision-sums result == nil && 0 <= k && k < len(txn.FileContractRevisions) ==> sumSCO(rev.FileContract.ValidProofOutputs, len(rev.FileContract.ValidProofOutputs)) == sumSCO(par.0.FileContract.ValidProofOutputs, len(par.0.FileContract.ValidProofOutputs)) && sumSCO(rev.FileContract.MissedProofOutputs, len(rev.FileContract.MissedProofOutputs)) == sumSCO(par.0.FileContract.MissedProofOutputs, len(par.0.FileContract.MissedProofOutputs))
+//@   ensures @U2-proofs-distinct result == nil && 0 <= k && k < l && l < len(txn.StorageProofs) ==> txn.StorageProofs[k].ParentID != txn.StorageProofs[l].ParentID
+//@   ensures @U3-proof-parent-unresolved result == nil && 0 <= k && k < len(txn.StorageProofs) ==> !has(ms.spends, sp.ParentID)
 //@   ensures @X1-proofs-exclusive result == nil && len(txn.StorageProofs) > 0 ==> len(txn.SiacoinOutputs) == 0 && len(txn.SiafundOutputs) == 0 && len(txn.FileContracts) == 0 && len(txn.FileContractRevisions) == 0
 
 // ------------------------------------------------------------ validation.go: v2 siacoins
